@@ -135,7 +135,8 @@ PROPS['C12'] = dict(
 )
 PROPS['C18'] = dict(
     modules=['SimProc.Props.C18', 'SimProc.Props.C18W'], prop_files=['SimProc/Props/C18.lean', 'SimProc/Props/C18W.lean'],
-    families=[('sched', 300, 6000)],
+    # sys: schedulers constructed while the simulation runs (timetable anchored at the construction time)
+    families=[('sched', 300, 6000), ('sys', 80, 1500)],
     tags=tags(*BASE, 's', 'rec'),
     monitors=M.MONITORS['C18'],
     nontrivial=has(('res act',)),
@@ -147,7 +148,8 @@ PROPS['C18'] = dict(
 )
 PROPS['C19'] = dict(
     modules=['SimProc.Props.C19', 'SimProc.Props.C19W', 'SimProc.Props.C18W'], prop_files=['SimProc/Props/C19.lean', 'SimProc/Props/C19W.lean', 'SimProc/Props/C18W.lean'],
-    families=[('sensor', 300, 6000)], impl_only_families=[('sensordec', 150, 3000)],
+    # sys: sensors constructed while the simulation runs (first sample one interval after construction)
+    families=[('sensor', 300, 6000), ('sys', 80, 1500)], impl_only_families=[('sensordec', 150, 3000)],
     tags=tags(*BASE, 'n'),
     monitors=M.MONITORS['C19'],
     nontrivial=has(('res sense',)),
